@@ -338,24 +338,24 @@ Definition retry_delay (cfg : retry_cfg) (w : world) : Z :=
   let d := if negb (r_max_duration cfg =? 0) then Z.min d (r_max_duration cfg - (w_now w - w_start w)) else d in
   Z.max 0 d.
 
-Fixpoint retry_loop (fuel : nat) (cfg : retry_cfg) (pos : nat) (inner : layer) (c : nat) (w : world) : presult * world :=
+Fixpoint retry_loop (fuel : nat) (cfg : retry_cfg) (pos : nat) (inner : layer) (c : nat) (w : world) : presult * world * nat (* ghost: number of times [inner] was invoked *) :=
   match fuel with
-  | O => (failure_result EOther, set_oof w)
+  | O => (failure_result EOther, set_oof w, O)
   | S fuel' =>
       let '(r, w1) := inner c w in
       match is_canceled w1 c with
-      | Some cr => (cr, w1)
+      | Some cr => (cr, w1, 1%nat)
       | None =>
-          if rs_exceeded (get_rstate w1 pos) then (r, w1)
+          if rs_exceeded (get_rstate w1 pos) then (r, w1, 1%nat)
           else
             let '(r2, w2) :=
               if is_failure (r_fpol cfg) (pr_out r) then retry_on_failure cfg pos c (with_failure r) w1
               else let r' := with_done r true true in (r', ev_with_result w1 c KPolSuccess pos r') in
-            if pr_done r2 then (r2, w2)
+            if pr_done r2 then (r2, w2, 1%nat)
             else
               (* RecordResult *)
               match is_canceled w2 c with
-              | Some cr => (cr, w2)
+              | Some cr => (cr, w2, 1%nat)
               | None =>
                   let w3 := set_copy_last w2 c (pr_out r2) in
                   let d := retry_delay cfg w3 in
@@ -363,13 +363,13 @@ Fixpoint retry_loop (fuel : nat) (cfg : retry_cfg) (pos : nat) (inner : layer) (
                   let '(_, w5) := wait w4 d (Some c) in
                   (* InitializeRetry *)
                   match is_canceled w5 c with
-                  | Some cr => (cr, w5)
+                  | Some cr => (cr, w5, 1%nat)
                   | None =>
                       let w6 := set_counters w5 (w_attempts w5 + 1) (w_retries w5 + 1) (w_executions w5) in
                       let w7 := set_copies w6 (upd c (fun cp => {| cp_chain := cp_chain cp; cp_last := cp_last cp; cp_start := w_now w6 |}) (w_copies w6)) in
                       let w8 := set_cell w7 None in
                       let w9 := ev_with_result w8 c KRetry pos r2 in
-                      retry_loop fuel' cfg pos inner c w9
+                      let '(rr, ww, n) := retry_loop fuel' cfg pos inner c w9 in (rr, ww, S n)
                   end
               end
       end
@@ -515,7 +515,7 @@ Definition cache_layer (pos inst : nat) (cfg : cache_cfg) (inner : layer) : laye
 
 Definition apply_policy (fuel : nat) (pos : nat) (p : policy) (inner : layer) : layer :=
   match p with
-  | PRetry cfg => fun c w => retry_loop fuel cfg pos inner c w
+  | PRetry cfg => fun c w => fst (retry_loop fuel cfg pos inner c w)
   | PBreaker i => breaker_layer pos i inner
   | PLimiter i mw => limiter_layer pos i mw inner
   | PBulkhead i mw => bulkhead_layer pos i mw inner
